@@ -1,12 +1,15 @@
 mod c0103;
 mod c05;
 mod c06;
+mod c07;
 mod c08;
 mod c09;
 mod c10;
 mod c12;
 mod c13;
+mod c14;
 mod c15;
+mod c16;
 mod reffront;
 mod refkiki;
 mod corpus;
@@ -53,18 +56,30 @@ fn main() {
                 "C03" => c0103::run(&ctx, "C03"),
                 "C05" => c05::run(&ctx),
                 "C06" => c06::run(&ctx),
+                "C07" => c07::run(&ctx),
                 "C08" => c08::run(&ctx),
                 "C09" => c09::run(&ctx),
                 "C10" => c10::run(&ctx),
                 "C12" => c12::run(&ctx),
                 "C13" => c13::run(&ctx),
+                "C14" => c14::run(&ctx),
                 "C15" => c15::run(&ctx),
+                "C16" => c16::run(&ctx),
                 "C04" => gramsweep::run_c04(&ctx),
                 "C11" => gramsweep::run_c11(&ctx),
                 "C17" => gramsweep::run_c17(&ctx),
                 _ => machinery_error(format!("no check for property {id}")),
             };
             std::process::exit(finalize(&ctx, outcome));
+        }
+        Some("c07-family") => {
+            let tier = if args.get(3).map(|s| s.as_str()) == Some("thorough") { Tier::Thorough } else { Tier::Quick };
+            c07::child_family(args.get(2).map(|s| s.as_str()).unwrap_or(""), tier, args.get(4).map(|s| s.as_str()));
+        }
+        Some("c07-probe") => c07::child_probe(args.get(2).and_then(|s| s.parse().ok()).unwrap_or(usize::MAX)),
+        Some("c07-one") => c07::child_one(args.get(2).map(|s| s.as_str()).unwrap_or("")),
+        Some("free-run") => {
+            println!("{}", c14::free_run_digest());
         }
         Some("replay") => {
             let path = args.get(2).cloned().unwrap_or_else(|| usage());
